@@ -107,16 +107,20 @@ value built from
   zero-value omission and field-order checks,
 * PACKED lists of non-ByteLength primitives (one length-prefixed block) and UNPACKED lists
   (one `key value` per element, ended by a larger field number) of strings, byte slices,
-  byte arrays, structs and struct pointers, including amino's `0x00` empty-element marker,
+  byte arrays, structs, struct pointers and interfaces, including amino's `0x00`
+  empty-element marker,
+* interfaces: nil, or a registered struct type wrapped as google.protobuf.Any (type URL
+  `"/" ++ name`, value omitted when empty, registry lookup, assignability, nesting depth ≤ 64),
 `UnmarshalReflect(MarshalReflect(v)) = v`, with the decoder's own fuel.
 NOT covered by this theorem (checked by correspondence only): lists nested in lists (the
-implicit-struct wrapping), `nil_elements`, raw-byte element lists, interfaces (Any),
-time / duration, AminoMarshaler reprs, `write_empty`, registered non-struct top-level types. -/
+implicit-struct wrapping), `nil_elements`, raw-byte element lists, non-struct concrete types
+under an interface, time / duration, AminoMarshaler reprs, `write_empty`, registered
+non-struct top-level types. -/
 theorem roundtrip_partial (env : Env) (hE : envOK env) (name : Bytes) (v : Val) (d : Nat)
-    (hwf : wf env d (.ref name) v = true) (hd : d ≤ env.length + 4) (bz : Bytes)
+    (hwf : wf env d (.ref name) v = true) (hd : d ≤ env.length + 4) (hd64 : d ≤ maxAnyDepth) (bz : Bytes)
     (hm : marshal env name v = .ok bz) (hlen : bz.length < 2 ^ 64) :
     unmarshal env name bz = some v :=
-  roundtrip_struct env hE name v d hwf hd bz hm hlen
+  roundtrip_struct env hE name v d hwf hd hd64 bz hm hlen
 
 /-- a struct with a packed list, an unpacked list of strings (one of them empty) and an
 unpacked list of struct pointers (one of them an empty struct). -/
@@ -134,6 +138,18 @@ example : envOK envL ∧ wf envL 2 (.ref nLists) vLists = true ∧
       0x1a, 5, 8, 10, 0x12, 1, 1, 0x1a, 0, 0x20, 7] = some vLists :=
   ⟨envOK_of_b (by decide +kernel), by decide +kernel, by decide +kernel, by decide +kernel⟩
 
+/-- interfaces: `std.MemPackage{Name: "p", Type: tm.BlockID{Hash: 01}, Info: tm.PartSetHeader{}}`
+— an Any with a value and an Any whose value is empty (type URL only). -/
+def vAny : Val := .struct [.x [112], .x [], .list [],
+  .any nBlockID (.struct [.x [1], .struct [.i 0, .x []]]), .any nPartSetHeader (.struct [.i 0, .x []])]
+
+example : wf envW 3 (.ref nMemPackage) vAny = true ∧
+    (∃ bz, marshal envW nMemPackage vAny = .ok bz ∧ bz.length = 44 ∧ unmarshal envW nMemPackage bz = some vAny) := by
+  refine ⟨by decide +kernel, ?_⟩
+  refine ⟨[10, 1, 112, 34, 18, 10, 11, 47, 116, 109, 46, 66, 108, 111, 99, 107, 73, 68, 18, 3, 10, 1, 1, 42, 19, 10, 17,
+    47, 116, 109, 46, 80, 97, 114, 116, 83, 101, 116, 72, 101, 97, 100, 101, 114], ?_, ?_, ?_⟩ <;>
+  decide +kernel
+
 /-- the hypotheses are satisfiable by a non-trivial value: a `tm.BlockID` with a
 nested `PartSetHeader`, one omitted (zero) field and three present ones. -/
 example : envOK envW ∧
@@ -145,11 +161,11 @@ example : envOK envW ∧
 /-- the decoder also consumes exactly its input: the same statement with explicit
 fuel, for any fuel at least `sumFields env + 2 + budget env bz.length`. -/
 theorem roundtrip_partial_any_fuel (env : Env) (hE : envOK env) (name : Bytes) (v : Val) (d : Nat)
-    (hwf : wf env d (.ref name) v = true) (hd : d ≤ env.length + 4) (bz : Bytes)
+    (hwf : wf env d (.ref name) v = true) (hd : d ≤ env.length + 4) (hd64 : d ≤ maxAnyDepth) (bz : Bytes)
     (hm : marshal env name v = .ok bz) (hlen : bz.length < 2 ^ 64)
     (k : Nat) (hk : sumFields env + 2 + budget env bz.length ≤ k) :
     unmarshalF k env name bz = some v :=
-  roundtrip_struct_fuel env hE name v d hwf hd bz hm hlen k hk
+  roundtrip_struct_fuel env hE name v d hwf hd hd64 bz hm hlen k hk
 
 /-- a value that amino omits from the wire (default, or encoded as the single byte
 0x00) is exactly the zero value the decoder re-creates — inside the fragment.  This is
